@@ -5,7 +5,7 @@ from .. import core, gen, impl_thr, scen
 from . import c01, c11
 
 ID = "C19"
-BUDGET = {"quick": 300, "thorough": 30000}
+BUDGET = {"quick": 1200, "thorough": 150000}
 RULE = ("scenario = 1-4 jobs created through all six calls with args in {None, (), 1-5 values incl. nested/mutable} and kwargs in "
         "{None, {}, 1-6 entries}; between polls the harness mutates the dict it passed as kwargs (add/remove/overwrite keys), the "
         "set it passed as tags, and the set returned by job.tags; >= 3 executions per job (forced polls); Spec: every invocation "
